@@ -57,7 +57,7 @@ def _shapes(run, g, np, n):
     return valid
 
 
-def _labelled(run, g, np, s_dir, basis, n):
+def _labelled(run, g, np, s_dir, basis, n, again=False):
     name = bases.name_of(basis)
     res = tlc.must(tlc.run("Trees", "Trees_label.cfg", constants=bases.tla_consts(basis, n), workers=1, heap="8g"),
                    "LabelSpec %s n=%d" % (name, n))
@@ -81,7 +81,15 @@ def _labelled(run, g, np, s_dir, basis, n):
         return
     trees = libio.read_trees(os.path.join(out, "orig_trees_%d.txt" % n))
     exp = [c["labels"] for c in model]
-    key = "%s:n%d" % (name, n)
+    key = "%s:n%d" % (name, n) + (":regenerated" if again else "")
+    # the tree list the later stages read: the originals, then the rewritten trees, nothing else
+    fx = os.path.join(out, "extra_trees_%d.txt" % n)
+    extra_trees = libio.read_trees(fx) if os.path.exists(fx) else []
+    whole = libio.read_trees(os.path.join(out, "trees_%d.txt" % n))
+    if whole != trees + extra_trees:
+        run.violation("trees_file:" + key, "trees_%d.txt has %d lines; orig_trees (%d) followed by extra_trees (%d) would be %d%s" % (
+            n, len(whole), len(trees), len(extra_trees), len(trees) + len(extra_trees),
+            "; the first %d lines are not the original trees" % len(trees) if whole[:len(trees)] != trees else ""), {"basis": basis, "n": n})
     if trees != exp:
         sm, st = set(map(tuple, exp)), set(map(tuple, trees))
         miss, extra = sorted(sm - st)[:3], sorted(st - sm)[:3]
@@ -128,6 +136,8 @@ def run(tier, replay=None):
         plan += [(b, n) for b in bases.USER_STYLE.values() for n in (3, 4)]
     for basis, n in plan:
         _labelled(r, g, np, s, basis, n)
+        if basis == S["core_maths"] and n == 4:
+            _labelled(r, g, np, s, basis, n, again=True)          # a second generation into the same directory (a repeated job)
     r.cov["rule"] = ("shapes: every arity string in {0,1,2}^n starting with 1 or 2 (n<=%d) is one behaviour of the placement machine; "
                      "non-trivial = rejected candidates (failed-prefix report compared). labelled: every complete labelling TLC reaches, "
                      "compared line by line (order and multiplicity) with orig_trees_n.txt of the real generate_equations." % nshape)
